@@ -328,6 +328,9 @@ class Ctor(object):
                 if c == "ARC2":
                     for ek in (-1, 0, 1, 39, 40, 41, 127, 128, 1023, 1024, 1025, 2 ** 31):
                         out.append(("ctor", c, mode, "effective_keylen", ek, 0, "E"))
+                if c == "AES" and mode in IVNAME:
+                    for n in (0, 1, 7, 12, 15, 16, 17):
+                        out.append(("ctor", c, mode, "iv_noaesni", n, 0, "E"))
         elif c == "ARC4":
             for klen in list(range(0, 300)) + [511, 512, 4096]:
                 for pl in "ES":
@@ -368,11 +371,13 @@ class Ctor(object):
         klen = a if what == "key" else (KEYLEN[c] * (2 if mode == "SIV" else 1))
         key = S.K.view(klen, pl, data(klen, 1000))
         kw = {}
+        if what == "iv_noaesni":
+            kw["use_aesni"] = False
         if mode in IVNAME and mode != "CTR" and what != "ccm_len":
-            n = a if what == "iv" else DEFIV.get(mode, bs)
+            n = a if what in ("iv", "iv_noaesni") else DEFIV.get(mode, bs)
             kw[IVNAME[mode]] = S.N.view(n, pl, data(n, 2000))
         if mode == "CTR":
-            if what == "iv":
+            if what in ("iv", "iv_noaesni"):
                 kw["nonce"] = data(a, 2000)
             elif what == "initial_value":
                 kw["nonce"] = data(a, 2000)
@@ -496,6 +501,9 @@ class Misc(object):
                 for L in (0, 1, 7, 8, 9, 16, 24):
                     for pl in "ES":
                         out.append(("misc", "eks_use", 8, 16, cost, L, pl))
+            # other chaining modes over the same base cipher (some refuse: the base cipher is then released again)
+            for m in range(0, 15):
+                out.append(("misc", "eks_mode", 8, 16, 1, m, "E"))
             # the empty salt comes last: one case per placement
             for pl in "ES":
                 out.append(("misc", "eks", 8, 0, 2, 1, pl))
@@ -560,7 +568,7 @@ class Misc(object):
 
     @staticmethod
     def group(case):
-        return {"pkcs1_out": "pkcs1", "eks_use": "eks", "scrypt_keys": "scrypt", "bcrypt_check_hash": "bcrypt_check",
+        return {"pkcs1_out": "pkcs1", "eks_use": "eks", "eks_mode": "eks", "scrypt_keys": "scrypt", "bcrypt_check_hash": "bcrypt_check",
                 "rsa15raw": "rsa15"}.get(case[1], case[1])
 
     @staticmethod
@@ -652,6 +660,12 @@ class Misc(object):
             hv = S.X.view(slen, pl, (h * 2)[:slen])
             bcrypt_check(pw, hv)
             return "ok" if slen == 60 else "truncated-hash-accepted"
+        if kind == "eks_mode":
+            from Crypto.Cipher import _EKSBlowfish
+            _, _, klen, slen, cost, m, pl = case
+            c = _EKSBlowfish.new(S.K.view(klen, pl, data(klen, 1000)), m, S.N.view(slen, pl, data(slen, 2000)), cost, True)
+            c.encrypt(S.IN.view(16, pl, data(16)))
+            return "ok"
         if kind in ("eks", "eks_use"):
             from Crypto.Cipher import _EKSBlowfish
             if kind == "eks":
